@@ -75,6 +75,18 @@ example : zReplay exUnsat [[3, 1], [2, 4, 0, 4]] = some (exUnsat ++ [[(0, false)
 example : ¬ ∃ σ, Sat σ exUnsat :=
   replay_empty_unsat (ps := [[3, 1], [2, 4, 0, 4]]) (by decide)
 
+/-- The traces of `solve_cnf` are replayable by `logic.resolution`: replaying the returned proofs on
+the (de-duplicated) input the way `proofrec.solve_cnf` and `zChaff.solve` do ends in the empty
+clause, so `assert contra_pt.prop == false` cannot fail.  (Wherever the verified checker's step
+applies, the macro computes the same clause: `macroResolve_of_resolveStep`.) -/
+theorem solver_trace_replays {fuel : Nat} {cnf : CNF} {o : Oracle} {c' : CNF}
+    {ps : List (Nat × List Nat)} (h : solveCnf fuel cnf o = .unsat c' ps) :
+    proofrecCheck (cnf.map dedup) (ps.map (·.2)) = true :=
+  proofrecCheck_of_checkProofs (proofs_valid h)
+
+example : proofrecCheck (exUnsat.map dedup) [[3, 1], [2, 4, 0, 4]] = true :=
+  solver_trace_replays exUnsat_run
+
 /-! ### termination -/
 
 /-- The `while True` of `analyze_conflict` ends.  In a state satisfying the trail invariants
